@@ -261,6 +261,9 @@ def run_check(pid, tier, seed):
              for i in order]
 
     nproc = int(os.environ.get('VCHECK_JOBS', '16'))
+    # model conformance against the real numpy / pandas runs alongside (a mismatch = harness error)
+    conf = subprocess.Popen([sys.executable, os.path.join(ROOT, 'realside', 'conformance.py')], cwd=ROOT,
+                            stdout=subprocess.PIPE, stderr=subprocess.STDOUT, text=True)
     from concurrent.futures import ProcessPoolExecutor, wait, FIRST_COMPLETED
     mp = multiprocessing.get_context('fork')
     # heavy configs first improves balance when the harness provides a cost estimate
@@ -277,18 +280,23 @@ def run_check(pid, tier, seed):
                 results.append(r)
                 for pfx in r.pop('subtrees', []):
                     pending.add(ex.submit(_explore, (hname, r['cfg'], tier, seed, limits, pfx, None)))
+    conf_out = conf.communicate()[0]
+    if conf.returncode != 0:
+        print(conf_out[-3000:])
+        print("HARNESS-ERROR: numpy/pandas model conformance failed; nothing is claimed")
+        return EXIT_HARNESS
     try:
         real = RealPool(int(os.environ.get('VCHECK_REAL_JOBS', '8')))
     except Exception as e:
         print("HARNESS-ERROR: cannot start the real side: %s" % e)
         return EXIT_HARNESS
     try:
-        return _finish(pid, hname, h, tier, seed, results, real, t0, limits)
+        return _finish(pid, hname, h, tier, seed, results, real, t0, limits, conf_out.strip().splitlines()[-1])
     finally:
         real.close()
 
 
-def _finish(pid, hname, h, tier, seed, results, real, t0, limits):
+def _finish(pid, hname, h, tier, seed, results, real, t0, limits, conformance=''):
     from models import env
     known = load_known()
     status = EXIT_OK
@@ -446,7 +454,7 @@ def _finish(pid, hname, h, tier, seed, results, real, t0, limits):
             cpu_s=round(sum(r['wall'] for r in results), 1),
             witnesses_sampled=len(wreqs), witnesses_skipped_rounding=wit_skipped,
             counterexamples=n_cex_total, counterexamples_replayed=len(vreqs), counterexamples_reproduced=n_viol + n_known,
-            known_findings=n_known, not_reproduced=len(not_repro), model_gap_paths=n_gaps,
+            known_findings=n_known, not_reproduced=len(not_repro), model_gap_paths=n_gaps, model_conformance=conformance,
             inconclusive=sorted(set(inconcl)), harness_errors=len(errors) + len(wit_bad),
             functions_encoded=getattr(h, 'FUNCTIONS', []), source_sha256_16=hashes,
             bounds=getattr(h, 'BOUNDS', {}).get(tier, ''), outside_bounds=getattr(h, 'OUTSIDE', ''),
